@@ -53,7 +53,7 @@ func VH18a_modes() {
 		side = vt.Listen(sock, "a")
 		p1 = side.Peer("p1")
 	}
-	switch verif.Choice("mode", 5) {
+	switch verif.Choice("mode", 6) {
 	case 0: // receive deadline
 		d := verif.Duration("recv-deadline")
 		verif.Assume(verif.And(d >= 1, d <= time.Hour))
@@ -167,6 +167,47 @@ func VH18a_modes() {
 			}
 			verif.Reach("no-peers-after-leave")
 		}
+	case 5: // a Send that completed at once is not failed later by its deadline
+		d := verif.Duration("send-deadline")
+		verif.Assume(verif.And(d >= 1, d <= time.Hour))
+		if ep.SetOption(mangos.OptionSendDeadline, d) != nil || p1 == nil {
+			verif.Assume(false)
+		}
+		if proto == "req" {
+			ep.SetOption(mangos.OptionRetryTime, time.Duration(0))
+		}
+		var serr error
+		g := verif.Go("send", func() { serr = ep.SendMsg(newMsg(proto)) })
+		verif.Quiesce()
+		if !g.Done() || serr != nil {
+			break
+		}
+		var rerr error
+		var rm *mangos.Message
+		rg := verif.Go("recv", func() { rm, rerr = ep.RecvMsg() })
+		verif.Quiesce()
+		for i := 0; i < 2; i++ {
+			verif.FireTimer() // the send deadline passes
+		}
+		if proto == "req" || proto == "surveyor" {
+			if rg.Done() {
+				// SURVEYOR: the survey time may have run out meanwhile (ErrProtoState); REQ has no reason to give up
+				verif.Assert(proto == "surveyor" && rerr == mangos.ErrProtoState, lab+"/recv-failed-by-the-send-deadline-of-a-completed-send")
+				break
+			}
+			if len(p1.Sent) == 0 {
+				break
+			}
+			h := p1.Sent[len(p1.Sent)-1].H
+			if len(h) != 4 {
+				break
+			}
+			p1.Deliver(append(append([]byte{}, h...), 'r'))
+			verif.Quiesce()
+			verif.Assert(rg.Done() && rerr == nil, lab+"/reply-lost-after-send-deadline-passed")
+			verif.Reach("completed-send-survives-deadline")
+		}
+		_ = rm
 	case 4: // no deadline: waits
 		var err error
 		g := verif.Go("recv", func() { _, err = ep.RecvMsg() })
